@@ -214,7 +214,8 @@ def reload_cases(tier, seed):
     cases = []
     for i in range(90 if tier == "quick" else 1500):
         s = wc.Script()
-        cfg = wc.setup_world(s, wc.base_cfg(deb=rng.choice([1, 2])))
+        deb0 = rng.choice([1, 2])
+        cfg = wc.setup_world(s, wc.base_cfg(deb=deb0))
         s.start()
         s.exec(3, wc.X + "/vim")
         files = [wc.WATCH + "/inc/a.txt", wc.WATCH + "/n"]
@@ -277,7 +278,12 @@ def reload_cases(tier, seed):
         s.tick(6)
         s.timeout()
         s.dump()
-        cases.append(("r%d" % i, s.text(), {"stamps": True}))
+        meta = {"stamps": True}
+        if kind not in ("queue", "badjournal"):
+            # the interval in force decides what a pass stores and which wait it asks for (the burst monitor follows
+            # accepted rewrites); not judged when the queue itself moves (open finding K3)
+            meta["deb"] = deb0
+        cases.append(("r%d" % i, s.text(), meta))
     return cases
 
 
@@ -372,7 +378,7 @@ def main(rep):
             found = True
         rc = reload_cases(rep.tier, rep.seed)
         if not found:
-            f, v = wk.run_cases(rep, exe_impl, exe_model, rc, ["reload", "journal", "queue_form", "fault_reported"])
+            f, v = wk.run_cases(rep, exe_impl, exe_model, rc, ["reload", "journal", "bursts", "queue_form", "fault_reported"])
             found = found or f
             validated += v
         for p in problems:
@@ -393,7 +399,7 @@ def main(rep):
     rep.cov["rule"] = ("configuration files as finite lists of assignments of literals to settings and to keys of table-valued settings: every single setting x every value "
                        "class (well-typed strings incl. empty / non-ASCII, numbers incl. 0, negative, non-integral, booleans, tables incl. non-string keys, nil), key operations, "
                        "random subsets of 2-3 settings; loaded by the real load_config with liblua 5.3 and judged against a restatement of the documentation; plus handler "
-                       "histories in which the watched configuration file is rewritten (new debounce / queue / journal / journal stamp pattern / rules / invalid / ill-typed / journal that cannot be opened) at every position; every journal line must carry the stamp pattern of the configuration in force")
+                       "histories in which the watched configuration file is rewritten (new debounce / queue / journal / journal stamp pattern / rules / invalid / ill-typed / journal that cannot be opened) at every position; every journal line must carry the stamp pattern of the configuration in force, every pass must store and wait according to the debounce in force")
     rep.cov["samples"] = [render(cases[40][1])[0].split("\n"), render(cases[-1][1])[0].split("\n")]
     vlib.conclude_proofs(rep, found)
 
